@@ -48,7 +48,7 @@ def main():
             lines.append(sx([A("read"), cfg, tys, data, 0]))
             if r[0] == "ok":
                 obj = r[1]
-                want = ("ok", impl.canon(obj), r[2], sorted(obj._sizes.items()))
+                want = ("ok", impl.canon(obj), r[2], sorted((k, v) for k, v in obj._sizes.items() if v))
             else:
                 want = r
             metas.append(("read", want, L.text, (data, endian, align, ptr)))
@@ -74,7 +74,7 @@ def main():
                 ok = s[0] == "err" and str(s[1]) == want[1]
                 stats["read-err:" + want[1]] += 1
             else:
-                ok = s[0] == "ok" and impl.same_val(want[1], s[1]) and int(s[2]) == want[2] and sorted((str(k), int(v)) for k, v in s[3]) == want[3]
+                ok = s[0] == "ok" and impl.same_val(want[1], s[1]) and int(s[2]) == want[2] and sorted((str(k), int(v)) for k, v in s[3] if int(v)) == want[3]
         elif kind == "write":
             if want[0] == "err":
                 ok = s[0] == "err" and str(s[1]) == want[1]
